@@ -1,9 +1,13 @@
 import BnpVerif.Props.C15
 #print axioms C15.validateChunk_shift
-#print axioms C15.validateChunk_right_good
+#print axioms C15.validateChunk_first
 #print axioms C15.line_number_kline
 #print axioms C15.rowOfOffsetMatrix_spec
 #print axioms C15.rowOfOffsetRagged_spec
 #print axioms C15.line_number_delimited
 #print axioms C15.line_number_cols
 #print axioms C15.readValidate_line
+#print axioms C15.reported_none_iff
+#print axioms C15.readValidate_none_iff
+#print axioms C15.chunk_size_independent
+#print axioms C15.validateOld_chunk_dependent
